@@ -96,9 +96,8 @@ add("F151", "C11", "open", "'10:30 EST to 12:45 EST' is an error: the difference
     c11({"DiffZoned": [tlit(10, 30), tlit(12, 45), {"Abbr": "EST"}]}),
     signature="T1 Z to T2 Z with the same explicit zone AND Err(No more token)")
 
-add("F152", "C10", "open", "'a b c as hours' with three names bound to durations converts only the LAST name (26 hours + 108 seconds + floor(76 minutes) instead of the floored sum; four names, two names and literal parts are right): the conversion rule fires on the last name before the names are combined (rule firing order of the rewriting loop, as F151; no small safe repair)",
-    {"sub": "duration-names-in-a-row", "case": {"groups": [[{"count": 26, "unit": 2, "spelling": 0, "group": False}], [{"count": 108, "unit": 0, "spelling": 0, "group": False}], [{"count": 76, "unit": 1, "spelling": 0, "group": False}]], "conv": [0, 2]}},
-    signature="three or more names side by side followed by a conversion AND the result is the sum of all but the last name plus the last name floored")
+add("F152", "C10", "fixed", "'a b c as hours' with three names bound to durations converted only the LAST name (26 hours + 108 seconds + floor(76 minutes) instead of the floored sum; two names, four names and literal parts were right): the conversion rule is tried before the combining rule and matched the last duration alone",
+    {"sub": "duration-names-in-a-row", "case": {"groups": [[{"count": 26, "unit": 2, "spelling": 0, "group": False}], [{"count": 108, "unit": 0, "spelling": 0, "group": False}], [{"count": 76, "unit": 1, "spelling": 0, "group": False}]], "conv": [0, 2]}}, commit="cf09ca9")
 
 # ---- C12 -------------------------------------------------------------------------------------
 def u(i, n=0): return {"unit": i, "name": n}
